@@ -3,7 +3,9 @@ import json, os, subprocess, sys, tempfile
 sys.path.insert(0, "/verif")
 findings = json.load(open("/verif/known_findings.json"))
 props = sorted(f[2:5].upper() for f in os.listdir("/verif/native") if f.startswith("p_c"))
-seeds = [int(s) for s in (sys.argv[1:] or ["0", "1", "2", "3", "4", "5"])]
+only = [a for a in sys.argv[1:] if a.startswith("C")]
+props = [p for p in props if not only or p in only]
+seeds = [int(s) for s in ([a for a in sys.argv[1:] if not a.startswith("C")] or ["0", "1", "2", "3", "4", "5"])]
 bad = 0
 for p in props:
     keys = [k for f in findings if f["property"] == p and f["status"] == "open" for k in f.get("native_keys", [])]
